@@ -160,7 +160,28 @@ static void ctx_join_all(void)
 #if defined(__SANITIZE_ADDRESS__)
 void __sanitizer_start_switch_fiber(void **fake_stack_save, const void *bottom, size_t size);
 void __sanitizer_finish_switch_fiber(void *fake_stack_save, const void **bottom_old, size_t *size_old);
+void __asan_unpoison_memory_region(void const volatile *addr, size_t size);
 #define FIBER_ANNOTATE 1
+#include <dlfcn.h>
+/* ASan's interceptor of swapcontext() clears the shadow of the whole stack it switches to ("may contain stale poison"),
+ * and with it the red zones of every frame that is live there: an overflow of a local array of tls*_do_accept/connect —
+ * frames that stay live across hundreds of switches — then goes unseen (found with seeded change C06-O).  The switch is
+ * annotated with __sanitizer_start/finish_switch_fiber anyway, so libc's own functions are called directly, and stale
+ * poison is removed where it can arise: when a stack is handed to a new task. */
+static int (*g_real_swapcontext)(ucontext_t *, const ucontext_t *);
+static int (*g_real_setcontext)(const ucontext_t *);
+static void real_ctx_init(void)
+{
+	void *h = dlopen("libc.so.6", RTLD_LAZY | RTLD_NOLOAD);
+	if (h) {
+		g_real_swapcontext = (int (*)(ucontext_t *, const ucontext_t *))dlsym(h, "swapcontext");
+		g_real_setcontext = (int (*)(const ucontext_t *))dlsym(h, "setcontext");
+	}
+	if (!g_real_swapcontext) g_real_swapcontext = swapcontext;
+	if (!g_real_setcontext) g_real_setcontext = setcontext;
+}
+#define swapcontext(a, b) g_real_swapcontext(a, b)
+#define setcontext(a) g_real_setcontext(a)
 #endif
 typedef struct { ucontext_t uc; void *fake; const void *bottom; size_t size; } Ctx;
 static Ctx g_ctx[SIM_MAX_TASKS + 1];            /* [0] = main, [i+1] = task i */
@@ -188,6 +209,9 @@ static void ctx_create(Task *t)
 {
 	Ctx *c = ctx_of(t->id);
 	memset(c, 0, sizeof(*c));
+#ifdef FIBER_ANNOTATE
+	if (!g_real_swapcontext) real_ctx_init();
+#endif
 	getcontext(&c->uc);
 	c->uc.uc_stack.ss_sp = t->stack;
 	c->uc.uc_stack.ss_size = SIM_STACK_SIZE;
@@ -397,6 +421,9 @@ int sim_spawn(const char *name, int node, void (*fn)(void *), void *arg)
 		if (g_stacks[id] == MAP_FAILED) die("mmap stack");
 	}
 	t->stack = g_stacks[id];
+#if defined(__SANITIZE_ADDRESS__) && !defined(GMSIM_THREADS)
+	__asan_unpoison_memory_region(t->stack, SIM_STACK_SIZE);   /* red zones of frames an earlier task never left */
+#endif
 	/* Same garbage in every run and in every replay: poison the part of the
 	 * stack the library can plausibly reach with a fixed pattern. */
 	memset(t->stack + SIM_STACK_SIZE - (768u << 10), 0xA5, 768u << 10);
